@@ -150,7 +150,21 @@ void ParticleSwarm(const ObjectiveFunction f, const TasDREAM::DreamDomain inside
     if (!state.cache_initialized) {
         f_constrained(state.particle_positions, state.cache_particle_fvals, state.cache_particle_inside);
         if (state.best_positions_initialized) {
-            f_constrained(state.best_particle_positions, state.cache_best_particle_fvals, state.cache_best_particle_inside);
+            // Evaluate only the entries that hold a best known position, the other entries are zero placeholders of particles
+            // (or of the swarm) that have not been inside the domain yet.
+            std::vector<size_t> assigned;
+            for (size_t i=0; i<=num_particles; i++)
+                if (state.cache_best_particle_inside[i]) assigned.push_back(i);
+            std::vector<double> assigned_positions, assigned_fvals(assigned.size());
+            std::vector<bool> assigned_inside(assigned.size());
+            for (auto i : assigned)
+                std::copy_n(state.best_particle_positions.begin() + i * num_dimensions, num_dimensions, std::back_inserter(assigned_positions));
+            if (not assigned.empty())
+                f_constrained(assigned_positions, assigned_fvals, assigned_inside);
+            for (size_t k=0; k<assigned.size(); k++) {
+                state.cache_best_particle_fvals[assigned[k]] = assigned_fvals[k];
+                state.cache_best_particle_inside[assigned[k]] = assigned_inside[k];
+            }
         }
         state.cache_initialized = true;
     }
